@@ -160,6 +160,9 @@ func methodOwner(t reflect.Type, name string) string {
 	return t.Name()
 }
 
+// MethodOwner is methodOwner for other packages.
+func MethodOwner(t reflect.Type, name string) string { return methodOwner(t, name) }
+
 func (p *producer) out() reflect.Type { return p.typ.Out(0) }
 
 // firstArg is the index of the first non-receiver parameter.
